@@ -239,7 +239,7 @@ PROPS = {
     "C12": {
         "level": "other",
         "rules": [("BB", 22, None), ("LAW", 6, has(":join", ":meet", ":choose")), ("LAW", 5, has("ExpectedUtility:mul", "ExpectedUtility:distrib", "ExpectedUtility:add", "ExpectedUtility:one", "ExpectedUtility:zero")),
-                  ("FS", 2, has("marginal_map_eval", "bb_ub")), ("PM", 4, has("::set:", "::get:", "assignment_iter", "shared-model-restored"))],
+                  ("FS", 2, lambda x: "repr::bdd::BddPtr::" in x["key"] and x["key"].endswith("<-Mul")), ("PM", 4, has("::set:", "::get:", "assignment_iter", "shared-model-restored"))],
         "explanation": "Decides the part of 'returns the optimum and an assignment attaining it' that is in the shape of the three "
                        "sibling searches (marginal_map_h, meu_h, bb_h), their bound functions and drivers, checked identically on "
                        "all three (BB1-BB7): value and witness always travel as a pair (leaf, running best, result); the two "
